@@ -3,9 +3,12 @@ package deb // import "pault.ag/go/debian/deb"
 import (
 	"fmt"
 	"io"
+	"io/ioutil"
 	"strings"
 
 	"golang.org/x/crypto/openpgp"
+
+	"pault.ag/go/debian/internal"
 )
 
 const (
@@ -47,6 +50,11 @@ func (deb *Deb) CheckDebsig(validKeys openpgp.EntityList, sigType string) (signe
 	whole := func(e *ArEntry) io.Reader {
 		return io.NewSectionReader(e.Data, 0, e.Data.Size())
 	}
-	signedData := io.MultiReader(whole(binaryFlag), whole(control), whole(data))
-	return openpgp.CheckDetachedSignature(validKeys, signedData, whole(sig))
+	signature, err := ioutil.ReadAll(whole(sig))
+	if err != nil {
+		return nil, err
+	}
+	return internal.CheckDetachedSignatures(validKeys, func() io.Reader {
+		return io.MultiReader(whole(binaryFlag), whole(control), whole(data))
+	}, signature)
 }
